@@ -559,6 +559,17 @@ def gen_scenario(rng: random.Random, groups: bool = True, async_req: bool = Fals
     return normalise(sc)
 
 
+def gen_clean_scenario(rng: random.Random, **kw) -> dict:
+    """A scenario outside every known data-flow finding class (rejection sampling; about one in five is)."""
+    import monitors_sched as ms
+    for _ in range(200):
+        sc = gen_scenario(rng, **kw)
+        sc["sparse_persistent"] = False
+        if ms.c03_class(sc) is None:
+            return sc
+    return sc
+
+
 def gen_loop_scenario(rng: random.Random) -> dict:
     """A same-time loop of 2-3 simulators inside a group of depth 2-4 (one weak connection), kept alive for
     loop_len sub-steps, with loop_len around max_loop_iterations; optionally an outer loop around it."""
